@@ -15,7 +15,8 @@ ASCII = 'abcdefghijklmnopqrstuvwxyzABCDEFGHIJKLMNOPQRSTUVWXYZ0123456789 !#$%&()*
 CTRL = ''.join(chr(i) for i in range(1, 32))
 ACC = 'éàüñçöåøÉÀÜÑÇÖÅØ\u00df\u03c2\u017f\ufb01\u0130'        # the last five: sharp s, final sigma, long s, the fi ligature, dotted capital I (case mappings that change length or differ from case folding)
 CJK = 'ㅍ日本語中文かな\U00020bb7\U0002a6a5'        # the last two are CJK Extension B ideographs (outside the BMP)
-ALPHA = ASCII + '   ' + CTRL + ACC + CJK
+COMB = '\u0301\u0308\u1112\u1161\u11ab\uf900\u212b\u2126'        # text that is not in normal form C: combining accents, conjoining Hangul jamo, a compatibility ideograph, the Angstrom and Ohm signs
+ALPHA = ASCII + '   ' + CTRL + ACC + CJK + COMB
 
 text_s = st.one_of(st.text(st.sampled_from(ALPHA), max_size=60), st.text(st.sampled_from(ASCII), max_size=60),
                    st.text(st.sampled_from('ab \t\n'), max_size=12), st.text(st.sampled_from('Ab c\'d-e3f'), max_size=20))
@@ -86,6 +87,10 @@ def check_slices(case):
     want_text('v_s&v_b', env, s + b, d + 's&b')
     if n <= len(s):
         want_text('LEFT(%s,%s)&RIGHT(%s,LEN(%s)-%s)' % (S, N, S, S, N), env, s, d + 'LEFT(s,n)&RIGHT(s,LEN(s)-n)')
+        # the same laws stated inside the formula language
+        want_value('LEFT(v_s,v_n)&RIGHT(v_s,LEN(v_s)-v_n)=v_s', env, True, d + 'LEFT(s,n)&RIGHT(s,LEN(s)-n)=s')
+        want_value('v_s=LEFT(v_s,v_n)&RIGHT(v_s,LEN(v_s)-v_n)', env, True, d + 's=LEFT(s,n)&RIGHT(s,LEN(s)-n)')
+    want_value('v_s&v_b=CONCATENATE(v_s,v_b)', env, True, d + 'b=%r: s&b=CONCATENATE(s,b)' % b)
 
 
 def slice_key(c):
